@@ -135,6 +135,21 @@ func (s *Session) exec(st Step) (bool, string) {
 			return false, "no-carrier"
 		}
 		c.Fail()
+	case "srvgone":
+		c := s.carrier()
+		if c == nil {
+			return false, "no-carrier"
+		}
+		c.ServerGone()
+	case "gstop":
+		if s.rts == nil {
+			return false, "no-rts"
+		}
+		s.emit("ctl", tr.E{"what": "shutdown"})
+		go func() {
+			s.rts.GracefulStop()
+			s.emit("ctl", tr.E{"what": "gstop.ret"})
+		}()
 	case "shutdown":
 		s.emit("ctl", tr.E{"what": "shutdown"})
 		if s.Cfg.Dir == "fwd" {
